@@ -192,7 +192,11 @@ func (g *gen) filler(inFunc bool) []zn.Stmt {
 	var out []zn.Stmt
 	for i, n := 0, g.pick(4, "nfill"); i < n; i++ {
 		g.n++
-		switch g.pick(8, "fk") {
+		switch g.pick(9, "fk") {
+		case 8:
+			// a call ended by 结束循环 travelling to the caller's loop: it has returned
+			out = append(out, &zn.While{Cond: &zn.BoolLit{V: true}, Body: []zn.Stmt{&zn.ExprStmt{E: &zn.Call{Name: "停"}}}})
+			g.labels["call-left-by-loop-signal-before"] = true
 		case 0:
 			out = append(out, show(&zn.RawStr{Src: "“第一行\n第二行\n第三行”", Val: "第一行\n第二行\n第三行"}))
 			g.labels["multi-line-literal"] = true
@@ -248,7 +252,15 @@ func helpers() []zn.Stmt {
 			&zn.Return{E: v("内")}},
 			Catches: []zn.Catch{{Class: "异常", Body: []zn.Stmt{&zn.Return{E: num(-1)}}}}},
 		&zn.FuncDef{Name: "必败", Params: []string{"数"}, Body: []zn.Stmt{&zn.Return{E: &zn.Bin{Op: "/", L: v("数"), R: num(0)}}}},
+		&zn.FuncDef{Name: "停", Body: []zn.Stmt{&zn.Break{}}},
+		&zn.ClassDef{Name: "别错", Props: []zn.Prop{{Name: "内容", Init: &zn.Str{V: ""}}}},
 	}
+}
+
+// otherHandler - a handler for a class the planted fault does NOT have: the error passes
+// through, and the chain below this level must survive that
+func otherHandler() []zn.Catch {
+	return []zn.Catch{{Class: "别错", Body: []zn.Stmt{&zn.Return{E: num(-2)}}}}
 }
 
 type unit struct {
@@ -271,6 +283,8 @@ func TestRuntimeFaults(t *testing.T) {
 				&zn.FuncDef{Name: "完成", Params: []string{"数"}, Body: []zn.Stmt{&zn.Return{E: v("数")}}},
 				&zn.FuncDef{Name: "必败", Params: []string{"数"}, Body: []zn.Stmt{&zn.Return{E: &zn.Bin{Op: "/", L: v("数"), R: num(0)}}}},
 				&zn.FuncDef{Name: "稳妥", Params: []string{"数"}, Body: []zn.Stmt{&zn.Return{E: &zn.Call{Name: "必败", Args: []zn.Expr{v("数")}}}}, Catches: []zn.Catch{{Class: "异常", Body: []zn.Stmt{&zn.Return{E: num(-1)}}}}},
+				&zn.FuncDef{Name: "停", Body: []zn.Stmt{&zn.Break{}}},
+				&zn.ClassDef{Name: "别错", Props: []zn.Prop{{Name: "内容", Init: &zn.Str{V: ""}}}},
 			}...)
 		} else {
 			main.prog.Body = append(main.prog.Body, helpers()...)
@@ -323,20 +337,28 @@ func TestRuntimeFaults(t *testing.T) {
 			body = append(body, act)
 			body = append(body, g.filler(i > 0)...)
 			body = append(body, show(&zn.Str{V: "到不了这里"}))
+			var catches []zn.Catch
+			if g.pick(4, "otherhandler") == 0 {
+				catches = otherHandler()
+				if i < depth {
+					g.labels["non-matching-handler-above-fault"] = true
+				}
+			}
 			if i == 0 {
 				main.prog.Body = append(main.prog.Body, body...)
+				main.prog.Catches = catches
 				continue
 			}
 			useMethod[i] = home[i] == home[i-1] && g.pick(4, "method") == 0
 			if useMethod[i] {
 				g.labels["method-frame"] = true
 				home[i].prog.Body = append(home[i].prog.Body, &zn.ClassDef{Name: fmt.Sprintf("类%d", i), Props: []zn.Prop{{Name: "名", Init: num(0)}},
-					Methods: []zn.FuncDef{{Name: "跑", Params: []string{"参"}, Body: body}}})
+					Methods: []zn.FuncDef{{Name: "跑", Params: []string{"参"}, Body: body, Catches: catches}}})
 			} else {
-				home[i].prog.Body = append(home[i].prog.Body, &zn.FuncDef{Name: fmt.Sprintf("层%d", i), Params: []string{"参"}, Body: body})
+				home[i].prog.Body = append(home[i].prog.Body, &zn.FuncDef{Name: fmt.Sprintf("层%d", i), Params: []string{"参"}, Body: body, Catches: catches})
 			}
 		}
-		if useMod && len(mod.prog.Body) == 3 {
+		if useMod && len(mod.prog.Body) == 5 {
 			g.labels["module-unused"] = true
 		}
 		// render every unit with its own layout policy
@@ -373,7 +395,7 @@ func TestRuntimeFaults(t *testing.T) {
 			labels = append(labels, l)
 		}
 		labels = append(labels, fmt.Sprintf("depth-%d", depth))
-		nt := depth >= 2 || g.labels["multi-line-literal"] || g.labels["handled-exception-before"]
+		nt := depth >= 2 || g.labels["non-matching-handler-above-fault"] || g.labels["multi-line-literal"] || g.labels["handled-exception-before"]
 		key, _ := json.Marshal(c)
 		h.R.Case(t, "runtime", string(key), c, labels, nt, checkRuntime(c))
 	})
